@@ -142,11 +142,21 @@ def precedence(repo, res):
     LKN = fn.name
     res.fn(fn)
     sym, lut = fn.params
-    first = fn.body[0]
-    ok = isinstance(first, ast.If) and norm(first.test) == f"{sym} in {lut}" and len(first.body) == 1 and isinstance(first.body[0], ast.Return) and norm(first.body[0].value) == f"{lut}[{sym}]"
-    split_line = min((c.lineno for c in ast.walk(fn.node) if isinstance(c, ast.Call) and norm(c.func) == "_split_prefix"), default=None)
-    ok = ok and split_line is not None and first.end_lineno < split_line
-    res.check(ok, "lookup:direct-first", fn.where(first), "a name that is in the table must be returned before any prefix splitting is attempted", rid=r2)
+    # on paths: whenever the name is in the table, the table row is returned and no prefix split was evaluated on the
+    # way; the split happens only on paths where the name is not in the table
+    ok = True
+    n_hit = 0
+    for p_ in enum_paths(fn.body):
+        fm_ = dict((t, tr) for t, tr, _ in path_facts(p_))
+        hit = fm_.get(f"{sym} in {lut}")
+        split_here = any(isinstance(c, ast.Call) and norm(c.func) == "_split_prefix" for ev in p_ if ev[0] in ("stmt", "cond", "return") and ev[1] is not None for c in ast.walk(ev[1] if not isinstance(ev[1], ast.Return) else (ev[1].value or ast.Constant(value=None))))
+        if hit is True:
+            n_hit += 1
+            ok &= p_[-1][0] == "return" and norm(p_[-1][1].value) == f"{lut}[{sym}]" and not split_here
+        elif hit is None and split_here:
+            ok = False  # a split evaluated before the membership test
+    ok &= n_hit >= 1
+    res.check(ok, "lookup:direct-first", fn.where(), "a name that is in the table must be returned before any prefix splitting is attempted", rid=r2)
     pf = [n for n in fn.body if isinstance(n, ast.If) and norm(n.test) == "prefix"]
     res.check(len(pf) == 1, "lookup:prefix-only-if-split", fn.where(), "the prefixed reading is used only when the splitter returned a prefix", rid=r2)
     sp = repo.mod(US).func("_split_prefix")
